@@ -120,7 +120,12 @@ class Impl:
                     kinds.append(1)
                 elif p.default is not p.empty:
                     kinds.append(7)
-                elif typechecked and p.annotation in [list, str, int, float]:
+                elif p.annotation in [list, str, int, float]:
+                    # The expectation comes from the DECLARED annotation, not from whether the
+                    # type-check decorator happens to be applied in the registered wrapper chain:
+                    # a built-in registered without its type check (e.g. decorator order swapped)
+                    # must show up as "wrong top-level type is not a function error", not be
+                    # silently modelled as unchecked.
                     kinds.append({list: 2, str: 3, int: 4, float: 5}[p.annotation])
                 else:
                     kinds.append(6)
